@@ -1,4 +1,5 @@
-(* The regenerated _parse_rfc (coq/gen/RstrGen.v) equals the hand model parse_rfc. *)
+(* The regenerated _parse_date, _parse_date_value and _parse_rfc (coq/gen/RstrGen.v) equal the hand
+   model (parse_date via g_parse, parse_date_value, parse_rfc). *)
 From Coq Require Import ZArith List Bool Lia ZifyBool.
 From V Require Import base.Cal rstr.RstrPrim rstr.RstrLemmas rstr.RstrModel rstr.RstrSpec rstr.RstrThmErr
   rstr.RstrGenBase gen.RstrGen rstr.RstrGenThm.
@@ -21,6 +22,70 @@ Proof.
   destruct (gen_parse_rfc_rrule ig line) as [kw|e]; cbn [gbind].
   - apply gres_g_of_res_ctor.
   - destruct e; reflexivity.
+Qed.
+
+(* ================================================================================================
+   _parse_date, _parse_date_value *)
+Lemma gen_parse_date_spec ig x : gen_parse_date ig x = g_parse ig x.
+Proof. unfold gen_parse_date, g_parse. destruct (parse_date ig x); reflexivity. Qed.
+
+Lemma startswith_after_last p : startswith s_TZIDeq p = true -> after_last_tzid p <> None.
+Proof.
+  destruct p as [|c r]; [discriminate|]. intro H. cbn [after_last_tzid].
+  destruct (after_last_tzid r); [discriminate|]. rewrite H. discriminate.
+Qed.
+
+Definition gen_pdv_parm (o : opts) (rule_tzids : list str) (st10 : Z * bool) (parm2 : str) : gres (Z * bool) :=
+  let '(TZID3, value_found4) := st10 in (if startswith [84; 90; 73; 68; 61] parm2 then (match tzid_lookup rule_tzids (split_last_tzid parm2) with Some tzkey5 => (let TZID6 := (tz_get (o_tzids o) tzkey5) in GOk (TZID6, value_found4)) | None => GOk (TZID3, value_found4) end) else (if negb (leqb parm2 [86; 65; 76; 85; 69; 61; 68; 65; 84; 69; 45; 84; 73; 77; 69] || leqb parm2 [86; 65; 76; 85; 69; 61; 68; 65; 84; 69]) then GExc XValue else (if value_found4 then GExc XValue else (let value_found7 := true in GOk (TZID3, value_found7))))).
+
+Lemma gen_pdv_parms_spec o names : forall parms tz vf,
+  gbind (gfoldM (gen_pdv_parm o names) parms (tz, vf)) (fun st => GOk (fst st)) = g_of_res (pdv_parms o names parms tz vf).
+Proof.
+  induction parms as [|p r IH]; intros tz vf; [reflexivity|]. cbn [gfoldM pdv_parms]. unfold gen_pdv_parm at 1.
+  cbv zeta. change [84; 90; 73; 68; 61] with s_TZIDeq.
+  change [86; 65; 76; 85; 69; 61; 68; 65; 84; 69; 45; 84; 73; 77; 69] with s_VALUE_DT.
+  change [86; 65; 76; 85; 69; 61; 68; 65; 84; 69] with s_VALUE_D.
+  destruct (startswith s_TZIDeq p) eqn:S.
+  - apply startswith_after_last in S. unfold split_last_tzid.
+    destruct (after_last_tzid p) as [key|]; [|congruence].
+    destruct (tzid_lookup names key); cbn [gbind]; apply IH.
+  - destruct (leqb p s_VALUE_DT || leqb p s_VALUE_D); cbn [negb]; [|reflexivity].
+    destruct vf; [reflexivity|]. cbn [gbind]. apply IH.
+Qed.
+
+Definition gen_pdv_date (o : opts) (TZID8 : Z) (st20 : list dt) (datestr12 : str) : gres (list dt) :=
+  let 'datevals13 := st20 in gbind (gen_parse_date (o_ignoretz o) datestr12) (fun t14 => (let date15 := t14 in (if negb (TZID8 =? 0) then (if (dtz date15 =? 0) then (let date16 := (dt_with_tz date15 TZID8) in (let datevals17 := datevals13 ++ [date16] in GOk datevals17)) else GExc XValue) else (let datevals18 := datevals13 ++ [date15] in GOk datevals18)))).
+
+Lemma gen_pdv_dates_spec o tz : forall l acc,
+  gfoldM (gen_pdv_date o tz) l acc = gbind (g_of_res (pdv_dates (o_ignoretz o) tz l)) (fun t => GOk (acc ++ t)).
+Proof.
+  induction l as [|x l IH]; intro acc; cbn [gfoldM pdv_dates]; [cbn; rewrite app_nil_r; reflexivity|].
+  unfold gen_pdv_date at 1. rewrite gen_parse_date_spec. unfold g_parse.
+  destruct (parse_date (o_ignoretz o) x) as [d| |]; cbn [gbind g_of_res]; try reflexivity. cbv zeta.
+  destruct (tz =? 0) eqn:Z0; cbn [negb andb gbind].
+  - rewrite IH. destruct (pdv_dates (o_ignoretz o) tz l) as [t|[]]; cbn [g_of_res gbind]; try reflexivity.
+    rewrite <- app_assoc. reflexivity.
+  - destruct (dtz d =? 0); cbn [negb gbind]; [|reflexivity].
+    rewrite IH. unfold dt_with_tz. destruct (pdv_dates (o_ignoretz o) tz l) as [t|[]]; cbn [g_of_res gbind]; try reflexivity.
+    rewrite <- app_assoc. reflexivity.
+Qed.
+
+Definition gen_parse_date_value' (o : opts) (rule_tzids : list str) (date_value : str) (parms : list str) : gres (list dt) :=
+  gbind (gfoldM (gen_pdv_parm o rule_tzids) parms (0, false)) (fun st11 => let '(TZID8, value_found9) := st11 in
+    gbind (gfoldM (gen_pdv_date o TZID8) (split_on 44 date_value) []) (fun st21 => GOk st21)).
+Lemma gen_parse_date_value_unfold o n v p : gen_parse_date_value o n v p = gen_parse_date_value' o n v p.
+Proof. reflexivity. Qed.
+
+Theorem gen_parse_date_value_spec o names v parms :
+  gen_parse_date_value o names v parms = g_of_res (parse_date_value o names v parms).
+Proof.
+  rewrite gen_parse_date_value_unfold. unfold gen_parse_date_value', parse_date_value.
+  pose proof (gen_pdv_parms_spec o names parms 0 false) as P.
+  destruct (gfoldM (gen_pdv_parm o names) parms (0, false)) as [[tz vf]|e]; cbn [gbind fst] in *.
+  - destruct (pdv_parms o names parms 0 false) as [t|e]; [|destruct e; discriminate].
+    cbn [g_of_res] in P. injection P as ->. rewrite gen_pdv_dates_spec.
+    destruct (pdv_dates (o_ignoretz o) t (split_on 44 v)) as [ds|[]]; reflexivity.
+  - destruct (pdv_parms o names parms 0 false) as [t|e0]; [discriminate|]. destruct e0; cbn [g_of_res] in *; injection P as ->; reflexivity.
 Qed.
 
 (* generic: a fold that appends one computed element per item is a monadic map *)
@@ -51,9 +116,9 @@ Qed.
 
 (* dates of an RDATE value *)
 Lemma gmap_dates_spec ig : forall l,
-  gres_res (gmapM (g_parse ig) l) = pdv_dates ig 0 l.
+  gres_res (gmapM (gen_parse_date ig) l) = pdv_dates ig 0 l.
 Proof.
-  induction l as [|x l IH]; [reflexivity|]. cbn [gmapM pdv_dates]. unfold g_parse at 1.
+  induction l as [|x l IH]; [reflexivity|]. cbn [gmapM pdv_dates]. rewrite gen_parse_date_spec. unfold g_parse at 1.
   destruct (parse_date ig x); cbn [gbind gres_res]; try reflexivity.
   cbn [Z.eqb negb andb]. rewrite <- IH. destruct (gmapM _ l) as [t|[]]; reflexivity.
 Qed.
@@ -68,7 +133,7 @@ Qed.
 
 Definition gen_line (o : opts) (names4 : list str)
   (st36 : list str * list str * list str * list dt * option dt) (line9 : str) :=
-  let '(rrulevals10, rdatevals11, exrulevals12, exdatevals13, dtstart14) := st36 in (if negb (negb (isnil line9)) then GOk (rrulevals10, rdatevals11, exrulevals12, exdatevals13, dtstart14) else (match (if negb (has_char 58 line9) then Some ([82; 82; 85; 76; 69], line9) else split1 58 line9) with Some (name15, value16) => (let parms17 := (split_on 59 name15) in (if negb (negb (isnil parms17)) then GExc XValue else gbind (g_nth parms17 0) (fun t18 => (let name19 := t18 in (let parms20 := (tl parms17) in (if leqb name19 [82; 82; 85; 76; 69] then (if isnil parms20 then (let rrulevals21 := rrulevals10 ++ [value16] in GOk (rrulevals21, rdatevals11, exrulevals12, exdatevals13, dtstart14)) else GExc XValue) else (if leqb name19 [82; 68; 65; 84; 69] then (if forallb (fun parm22 => negb (negb (leqb parm22 [86; 65; 76; 85; 69; 61; 68; 65; 84; 69; 45; 84; 73; 77; 69]))) parms20 then (let rdatevals23 := rdatevals11 ++ [value16] in GOk (rrulevals10, rdatevals23, exrulevals12, exdatevals13, dtstart14)) else GExc XValue) else (if leqb name19 [69; 88; 82; 85; 76; 69] then (if isnil parms20 then (let exrulevals24 := exrulevals12 ++ [value16] in GOk (rrulevals10, rdatevals11, exrulevals24, exdatevals13, dtstart14)) else GExc XValue) else (if leqb name19 [69; 88; 68; 65; 84; 69] then gbind (g_of_res (parse_date_value o names4 value16 parms20)) (fun t25 => (let exdatevals26 := exdatevals13 ++ t25 in GOk (rrulevals10, rdatevals11, exrulevals12, exdatevals26, dtstart14))) else (if leqb name19 [68; 84; 83; 84; 65; 82; 84] then gbind (g_of_res (parse_date_value o names4 value16 parms20)) (fun t27 => (let dtvals28 := t27 in (if negb ((Z.of_nat (List.length dtvals28)) =? 1) then GExc XValue else gbind (g_nth dtvals28 0) (fun t29 => (let dtstart30 := (Some t29) in GOk (rrulevals10, rdatevals11, exrulevals12, exdatevals13, dtstart30)))))) else GExc XValue)))))))))) | None => GExc XValue end)).
+  let '(rrulevals10, rdatevals11, exrulevals12, exdatevals13, dtstart14) := st36 in (if negb (negb (isnil line9)) then GOk (rrulevals10, rdatevals11, exrulevals12, exdatevals13, dtstart14) else (match (if negb (has_char 58 line9) then Some ([82; 82; 85; 76; 69], line9) else split1 58 line9) with Some (name15, value16) => (let parms17 := (split_on 59 name15) in (if negb (negb (isnil parms17)) then GExc XValue else gbind (g_nth parms17 0) (fun t18 => (let name19 := t18 in (let parms20 := (tl parms17) in (if leqb name19 [82; 82; 85; 76; 69] then (if isnil parms20 then (let rrulevals21 := rrulevals10 ++ [value16] in GOk (rrulevals21, rdatevals11, exrulevals12, exdatevals13, dtstart14)) else GExc XValue) else (if leqb name19 [82; 68; 65; 84; 69] then (if forallb (fun parm22 => negb (negb (leqb parm22 [86; 65; 76; 85; 69; 61; 68; 65; 84; 69; 45; 84; 73; 77; 69]))) parms20 then (let rdatevals23 := rdatevals11 ++ [value16] in GOk (rrulevals10, rdatevals23, exrulevals12, exdatevals13, dtstart14)) else GExc XValue) else (if leqb name19 [69; 88; 82; 85; 76; 69] then (if isnil parms20 then (let exrulevals24 := exrulevals12 ++ [value16] in GOk (rrulevals10, rdatevals11, exrulevals24, exdatevals13, dtstart14)) else GExc XValue) else (if leqb name19 [69; 88; 68; 65; 84; 69] then gbind (gen_parse_date_value o names4 value16 parms20) (fun t25 => (let exdatevals26 := exdatevals13 ++ t25 in GOk (rrulevals10, rdatevals11, exrulevals12, exdatevals26, dtstart14))) else (if leqb name19 [68; 84; 83; 84; 65; 82; 84] then gbind (gen_parse_date_value o names4 value16 parms20) (fun t27 => (let dtvals28 := t27 in (if negb ((Z.of_nat (List.length dtvals28)) =? 1) then GExc XValue else gbind (g_nth dtvals28 0) (fun t29 => (let dtstart30 := (Some t29) in GOk (rrulevals10, rdatevals11, exrulevals12, exdatevals13, dtstart30)))))) else GExc XValue)))))))))) | None => GExc XValue end)).
 
 Definition exc_err (e : gexc) : err := match e with XUnm => EUnmodelled | XType => EType | _ => EValue end.
 
@@ -96,10 +161,10 @@ Proof.
          else if leqb t18 [69; 88; 82; 85; 76; 69] then
            if isnil (tl (split_on 59 nm)) then GOk (rr, rd, xr ++ [value], xd, st) else GExc XValue
          else if leqb t18 [69; 88; 68; 65; 84; 69] then
-           gbind (g_of_res (parse_date_value o names value (tl (split_on 59 nm))))
+           gbind (gen_parse_date_value o names value (tl (split_on 59 nm)))
              (fun t25 => GOk (rr, rd, xr, xd ++ t25, st))
          else if leqb t18 [68; 84; 83; 84; 65; 82; 84] then
-           gbind (g_of_res (parse_date_value o names value (tl (split_on 59 nm))))
+           gbind (gen_parse_date_value o names value (tl (split_on 59 nm)))
              (fun t27 => if negb (Z.of_nat (List.length t27) =? 1) then GExc XValue
                          else gbind (g_nth t27 0) (fun t29 => GOk (rr, rd, xr, xd, Some t29)))
          else GExc XValue))
@@ -147,6 +212,7 @@ Proof.
     change [82; 68; 65; 84; 69] with s_RDATE. change [69; 88; 82; 85; 76; 69] with s_EXRULE.
     change [69; 88; 68; 65; 84; 69] with s_EXDATE. change [68; 84; 83; 84; 65; 82; 84] with s_DTSTART.
     change [86; 65; 76; 85; 69; 61; 68; 65; 84; 69; 45; 84; 73; 77; 69] with s_VALUE_DT.
+    rewrite !gen_parse_date_value_spec.
     destruct (leqb pname s_RRULE); [destruct parms; reflexivity|].
     destruct (leqb pname s_RDATE); [rewrite forallb_negneg; destruct (forallb _ parms); reflexivity|].
     destruct (leqb pname s_EXRULE); [destruct parms; reflexivity|].
@@ -180,19 +246,19 @@ Qed.
 (* ---- set assembly ---- *)
 Definition gen_asm (ev : env) (o : opts) (forceset1 : bool)
   (st37 : list str * list str * list str * list dt * option dt) : gres result :=
-  let '(rrulevals31, rdatevals32, exrulevals33, exdatevals34, dtstart35) := st37 in (if ((forceset1) || (1 <? (Z.of_nat (List.length rrulevals31))) || (negb (isnil rdatevals32)) || (negb (isnil exrulevals33)) || (negb (isnil exdatevals34))) then gbind (gfoldM (fun st43 value38 => let 'rset_rr39 := st43 in gbind (gen_rule ev (o_ignoretz o) value38 dtstart35) (fun t40 => (let rs41 := rset_rr39 ++ [t40] in GOk rs41))) rrulevals31 []) (fun st44 => let 'rset_rr42 := st44 in gbind (gfoldM (fun st55 value45 => let 'rset_rd46 := st55 in gbind (gfoldM (fun st52 datestr47 => let 'rset_rd48 := st52 in gbind (g_parse (o_ignoretz o) datestr47) (fun t49 => (let rs50 := rset_rd48 ++ [t49] in GOk rs50))) (split_on 44 value45) rset_rd46) (fun st53 => let 'rset_rd51 := st53 in GOk rset_rd51)) rdatevals32 []) (fun st56 => let 'rset_rd54 := st56 in gbind (gfoldM (fun st62 value57 => let 'rset_xr58 := st62 in gbind (gen_rule ev (o_ignoretz o) value57 dtstart35) (fun t59 => (let rs60 := rset_xr58 ++ [t59] in GOk rs60))) exrulevals33 []) (fun st63 => let 'rset_xr61 := st63 in gbind (gfoldM (fun st68 value64 => let 'rset_xd65 := st68 in (let rs66 := rset_xd65 ++ [value64] in GOk rs66)) exdatevals34 []) (fun st69 => let 'rset_xd67 := st69 in (if ((o_compatible o)) then match dtstart35 with Some dtstart70 => (let rs71 := rset_rd54 ++ [dtstart70] in GOk (RSet (o_cache o) rset_rr42 rs71 rset_xr61 rset_xd67)) | None => GOk (RSet (o_cache o) rset_rr42 rset_rd54 rset_xr61 rset_xd67) end else GOk (RSet (o_cache o) rset_rr42 rset_rd54 rset_xr61 rset_xd67)))))) else (if negb (negb (isnil rrulevals31)) then GExc XValue else gbind (g_nth rrulevals31 0) (fun t72 => gbind (gen_rule ev (o_ignoretz o) t72 dtstart35) (fun t73 => GOk (RRule (o_cache o) t73))))).
+  let '(rrulevals31, rdatevals32, exrulevals33, exdatevals34, dtstart35) := st37 in (if ((forceset1) || (1 <? (Z.of_nat (List.length rrulevals31))) || (negb (isnil rdatevals32)) || (negb (isnil exrulevals33)) || (negb (isnil exdatevals34))) then gbind (gfoldM (fun st43 value38 => let 'rset_rr39 := st43 in gbind (gen_rule ev (o_ignoretz o) value38 dtstart35) (fun t40 => (let rs41 := rset_rr39 ++ [t40] in GOk rs41))) rrulevals31 []) (fun st44 => let 'rset_rr42 := st44 in gbind (gfoldM (fun st55 value45 => let 'rset_rd46 := st55 in gbind (gfoldM (fun st52 datestr47 => let 'rset_rd48 := st52 in gbind (gen_parse_date (o_ignoretz o) datestr47) (fun t49 => (let rs50 := rset_rd48 ++ [t49] in GOk rs50))) (split_on 44 value45) rset_rd46) (fun st53 => let 'rset_rd51 := st53 in GOk rset_rd51)) rdatevals32 []) (fun st56 => let 'rset_rd54 := st56 in gbind (gfoldM (fun st62 value57 => let 'rset_xr58 := st62 in gbind (gen_rule ev (o_ignoretz o) value57 dtstart35) (fun t59 => (let rs60 := rset_xr58 ++ [t59] in GOk rs60))) exrulevals33 []) (fun st63 => let 'rset_xr61 := st63 in gbind (gfoldM (fun st68 value64 => let 'rset_xd65 := st68 in (let rs66 := rset_xd65 ++ [value64] in GOk rs66)) exdatevals34 []) (fun st69 => let 'rset_xd67 := st69 in (if ((o_compatible o)) then match dtstart35 with Some dtstart70 => (let rs71 := rset_rd54 ++ [dtstart70] in GOk (RSet (o_cache o) rset_rr42 rs71 rset_xr61 rset_xd67)) | None => GOk (RSet (o_cache o) rset_rr42 rset_rd54 rset_xr61 rset_xd67) end else GOk (RSet (o_cache o) rset_rr42 rset_rd54 rset_xr61 rset_xd67)))))) else (if negb (negb (isnil rrulevals31)) then GExc XValue else gbind (g_nth rrulevals31 0) (fun t72 => gbind (gen_rule ev (o_ignoretz o) t72 dtstart35) (fun t73 => GOk (RRule (o_cache o) t73))))).
 
 Lemma gbind_ret {A} (r : gres A) : gbind r (fun x => GOk x) = r.
 Proof. destruct r; reflexivity. Qed.
 
 Lemma rdates_fold ig : forall l acc,
-  gres_res (gfoldM (fun st55 value45 => gbind (gfoldM (fun st52 datestr47 => gbind (g_parse ig datestr47)
+  gres_res (gfoldM (fun st55 value45 => gbind (gfoldM (fun st52 datestr47 => gbind (gen_parse_date ig datestr47)
        (fun t49 => GOk (st52 ++ [t49]))) (split_on 44 value45) st55) (fun st53 => GOk st53)) l acc)
   = match parse_rdates ig l with Ok ds => Ok (acc ++ ds) | Err e => Err e end.
 Proof.
   induction l as [|v l IH]; intro acc; cbn [gfoldM parse_rdates]; [rewrite app_nil_r; reflexivity|].
-  rewrite gbind_ret. rewrite (gfold_append (g_parse ig)). rewrite <- gmap_dates_spec.
-  destruct (gmapM (g_parse ig) (split_on 44 v)) as [ds|e]; cbn [gbind gres_res].
+  rewrite gbind_ret. rewrite (gfold_append (gen_parse_date ig)). rewrite <- gmap_dates_spec.
+  destruct (gmapM (gen_parse_date ig) (split_on 44 v)) as [ds|e]; cbn [gbind gres_res].
   - rewrite IH. destruct (parse_rdates ig l); [rewrite app_assoc; reflexivity|reflexivity].
   - destruct e; reflexivity.
 Qed.
